@@ -79,18 +79,50 @@ class _Stop(Exception):
 # ----------------------------------------------------------------------------------------------------------------
 # heal
 # ----------------------------------------------------------------------------------------------------------------
-class _Fold:
-    def __init__(self, valid, trace):
-        self.valid, self.confidence, self.error_trace, self.structure = valid, 0.0, trace, None
+# The stand-ins for the collaborators are the library's OWN classes (of the tree under test) with only the callback of
+# the loop scripted: a change that reads more of a collaborator (chaperone.max_retries, result.executed, worker.status)
+# is then evaluated for what it does, not answered with `none` because a look-alike object lacked the attribute.
+_LIB = {}
 
 
-class _Chap:
-    def __init__(self, trace="boom", valid_at=None):
-        self.trace, self.n, self.valid_at = trace, 0, valid_at
+def _lib():
+    if not _LIB:
+        from operon_ai.organelles.chaperone import Chaperone, EnhancedFoldedProtein
+        from operon_ai.organelles.mitochondria import Mitochondria
+        from operon_ai.healing.regenerative_swarm import SimpleWorker
+        from operon_ai.providers import ToolCall, ToolResult, ToolSchema
 
-    def fold_enhanced(self, raw, schema, *a, **kw):
-        self.n += 1
-        return _Fold(self.valid_at is not None and self.n - 1 >= self.valid_at, self.trace)
+        class ChapBase(Chaperone):
+            def __init__(self):
+                super().__init__(silent=True)
+
+        class MitoBase(Mitochondria):
+            def __init__(self):
+                super().__init__(silent=True)
+
+            def export_tool_schemas(self):
+                return [ToolSchema(name="t", description="tool", parameters_schema={"type": "object", "properties": {}})]
+
+        class WorkerBase(SimpleWorker):
+            def __init__(self, name):
+                super().__init__(id=name, work_function=lambda task, memory: self.step(task))
+        _LIB.update(ChapBase=ChapBase, MitoBase=MitoBase, WorkerBase=WorkerBase, EFP=EnhancedFoldedProtein,
+                    ToolCall=ToolCall, ToolResult=ToolResult)
+    return _LIB
+
+
+def _Fold(valid, trace):
+    return _lib()["EFP"](valid=valid, structure=None, raw_peptide_chain="", error_trace=trace, confidence=0.0)
+
+
+def _Chap(trace="boom", valid_at=None):
+    class C(_lib()["ChapBase"]):
+        def fold_enhanced(self, raw, schema, *a, **kw):
+            self.n += 1
+            return _Fold(self.valid_at is not None and self.n - 1 >= self.valid_at, self.trace)
+    c = C()
+    c.trace, c.n, c.valid_at = trace, 0, valid_at
+    return c
 
 
 def _heal_count(loop):
@@ -144,11 +176,7 @@ def _swarm_run(rs, sw, outputs=None):
     """run supervise on `sw` with fresh counting callbacks; returns (steps per spawn, result)"""
     spawns = []
 
-    class W:
-        def __init__(self, name):
-            self.id = name
-            self.memory = rs.WorkerMemory()
-
+    class W(_lib()["WorkerBase"]):
         def step(self, task):
             k = spawns[-1]
             spawns[-1] = k + 1
@@ -248,13 +276,11 @@ def collapse_point(rs, pat, thr):
 def _tool_run(nu, providers, call_kw, positional=None, real_mito=False, nuc=None):
     cnt = {"T": 0, "C": 0}
 
-    class Call:
-        def __init__(self, i):
-            self.id, self.name, self.arguments = f"c{i}", "t", {}
+    def Call(i):
+        return _lib()["ToolCall"](id=f"c{i}", name="t", arguments={})
 
-    class Res:
-        def __init__(self, cid):
-            self.call_id, self.output, self.success, self.error = cid, "r", True, None
+    def Res(cid):
+        return _lib()["ToolResult"](call_id=cid, output="r", success=True, error=None)
 
     class Prov:
         name = "adv"
@@ -276,10 +302,7 @@ def _tool_run(nu, providers, call_kw, positional=None, real_mito=False, nuc=None
                 return providers.LLMResponse("round", "m", 1, 1.0), [providers.ToolCall(id=f"c{cnt['T']}", name="t", arguments={})]
             return providers.LLMResponse("round", "m", 1, 1.0), [Call(cnt["T"])]
 
-    class Mito:
-        def export_tool_schemas(self):
-            return [object()]
-
+    class Mito(_lib()["MitoBase"]):
         def execute_tool_call(self, call):
             return Res(call.id)
     if real_mito:
@@ -327,10 +350,7 @@ def hint_points(rs):
         n = [0]
         before = (len(sw._apoptosis_events), len(sw._regeneration_events), sw._worker_counter)
 
-        class W:
-            def __init__(self, name):
-                self.id, self.memory = name, rs.WorkerMemory()
-
+        class W(_lib()["WorkerBase"]):
             def step(self, task):
                 n[0] += 1
                 return f"out {n[0]}"
@@ -369,13 +389,11 @@ def thread_points(nu, providers):
         prompts = []
         n = [0]
 
-        class Call:
-            def __init__(self, i):
-                self.id, self.name, self.arguments = f"c{i}", "t", {}
+        def Call(i):
+            return _lib()["ToolCall"](id=f"c{i}", name="t", arguments={})
 
-        class Res:
-            def __init__(self, cid, out):
-                self.call_id, self.output, self.success, self.error = cid, out, True, None
+        def Res(cid, out):
+            return _lib()["ToolResult"](call_id=cid, output=out, success=True, error=None)
 
         def tool(**kw):
             n[0] += 1
@@ -398,10 +416,7 @@ def thread_points(nu, providers):
                     return providers.LLMResponse("round", "m", 1, 1.0), [providers.ToolCall(id=f"c{k}", name="t", arguments={})]
                 return providers.LLMResponse("round", "m", 1, 1.0), [Call(k)]
 
-        class Mito:
-            def export_tool_schemas(self):
-                return [object()]
-
+        class Mito(_lib()["MitoBase"]):
             def execute_tool_call(self, call):
                 return Res(call.id, tool())
         if real_mito:
@@ -531,7 +546,7 @@ def feed_points(cl, schema):
     def one(lp):
         seen = []
 
-        class Chap:
+        class Chap(_lib()["ChapBase"]):
             n = 0
 
             def fold_enhanced(self, raw, sch, *a, **kw):
